@@ -313,8 +313,10 @@ impl<W: WriteColor> SearchWorker<W> {
             )
         })?;
         let result = self.search_reader(path, &mut rdr).map_err(|err| {
+            // Keep the kind of the original error so that callers can still
+            // recognize, e.g., a broken pipe on stdout.
             io::Error::new(
-                io::ErrorKind::Other,
+                err.kind(),
                 format!("preprocessor command failed: '{:?}': {}", cmd, err),
             )
         });
